@@ -22,6 +22,7 @@ EXPLANATION = (
     " (CTX, GUARD, LOOP-LABEL) `break` / `goto` are emitted only where legal: the checker's inside_loop flag is true exactly for a loop's body and reset by function literals, and the lowering hands the body the label that the loop itself writes."
     ' (BUDGET) the number of Lua locals per function and the nesting depth of inlined expressions are bounded independently of source length (both obligations fail: known findings).'
     ' (LEX-SAFE crash message) every IR::HaltAndCatchFire message is built from literal pieces without quote, backslash or line break and from numbers.'
+    ' (WRITE-CHECKED, shared with C20) what a buffering writer holds is flushed with a checked result.'
 )
 UNDECIDED = ("Lua's 60-upvalue and constant-table limits; the two limits a structural rule can reach (200 locals per function, "
              "200 syntax levels) are the BUDGET obligations, which fail on the current tree (known findings).")
